@@ -114,6 +114,7 @@ func (t *RecordingTransport) RoundTrip(req *http.Request) (*http.Response, error
 		t.mu.Unlock()
 	}()
 	if a := t.take(ep); a != nil {
+		t.w.Fire(fmt.Sprintf("%s.%s.%s", strings.ToLower(t.link), ep, a.Tag))
 		ex.Injected = a.Tag
 		ex.Status, ex.RespBody = a.Status, []byte(a.Body)
 		ex.RespHdr = http.Header{"Content-Type": {"application/json"}}
